@@ -438,6 +438,10 @@ def preprocess_tree_sequences(
         total_tokens,
     ) = construct_token_dictionary_and_frequency(flat_sequence, token_dictionary)
 
+    if token_dictionary is not None:
+        # work on a copy: the mask entry is removed / appended below and the caller's object must stay as it is
+        token_dictionary = dict(token_dictionary)
+
     if token_dictionary is None:
         if {
             min_tree_frequency,
@@ -619,6 +623,10 @@ def preprocess_token_sequences(
         flatten(token_sequences), token_dictionary
     )
 
+    if token_dictionary is not None:
+        # work on a copy: the mask entry is removed / appended below and the caller's object must stay as it is
+        token_dictionary = dict(token_dictionary)
+
     if token_dictionary is None:
         if {
             min_document_frequency,
@@ -798,6 +806,10 @@ def preprocess_timed_token_sequences(
         token_frequencies,
         total_tokens,
     ) = construct_token_dictionary_and_frequency(flat_only_tokens, token_dictionary)
+
+    if token_dictionary is not None:
+        # work on a copy: the mask entry is removed / appended below and the caller's object must stay as it is
+        token_dictionary = dict(token_dictionary)
 
     if token_dictionary is None:
         if {
@@ -982,6 +994,10 @@ def preprocess_multi_token_sequences(
     ) = construct_token_dictionary_and_frequency(
         full_flatten(token_sequences), token_dictionary
     )
+
+    if token_dictionary is not None:
+        # work on a copy: the mask entry is removed / appended below and the caller's object must stay as it is
+        token_dictionary = dict(token_dictionary)
 
     if token_dictionary is None:
         if {
